@@ -469,7 +469,10 @@ package larking
 //@            ==> at(ptr(r, "path").variables, x) != nil && gf(at(ptr(r, "path").variables, x), "depth") == gf(r, "depth"))
 //@      && (forall r :: {gf(r, "depth")} gf(r, "depth") >= 0)
 
-//@ func parseParam trusted pure
+// (assumed pure at call sites; its body is checked for value-preserving integer
+// conversions: text that does not fit the field's type must be rejected by the
+// typed decoder, never truncated afterwards - C03's "rejected rather than coerced")
+//@ func parseParam serves C01 C09 trusted pure partial conv
 //@ func (tokens).String trusted pure
 
 //@ func (*path).search serves C01 C02 C09
